@@ -159,6 +159,7 @@ func textOf(ts []xtok) (string, bool) {
 
 type xmlCmp struct {
 	changed map[string]string
+	lost    []string // recorded values whose text is unchanged but whose inner tokens (comments) were dropped
 	added   []kv
 	diff    string
 }
@@ -317,10 +318,11 @@ func compareXML(in, out []xtok, flags map[string]string, allowAdd bool) xmlCmp {
 						return res
 					}
 					if ti == tj {
-						res.diff = fmt.Sprintf("tokens inside value %s (%s/%s) were lost although its text %q is unchanged", id, ctx(), in[i].name, ti)
-						return res
+						// the text is unchanged but tokens inside the value (a comment) are gone
+						res.lost = append(res.lost, id)
+					} else {
+						res.changed[id] = tj
 					}
-					res.changed[id] = tj
 				}
 				if len(stack) > 0 {
 					stack[len(stack)-1].next++
